@@ -21,7 +21,25 @@ pub fn plan_for(property: &str, seed: u64, run: u64, miri: bool) -> HistPlan {
     let focus = focus_of(property);
     let tag = if focus == Focus::C05 { TAG_C05 } else { TAG_C08 } ^ if miri { 0x1000 } else { 0 };
     let mut rng = Rng::new(run_seed(seed, tag, run));
-    let knobs = if miri { HistKnobs::miri() } else { HistKnobs::for_focus(focus) };
+    let mut knobs = if miri { HistKnobs::miri() } else { HistKnobs::for_focus(focus) };
+    if !miri {
+        // soak runs: long histories on one object with short texts, so that anything that
+        // counts operations (and could wrap or cross a threshold) is driven past 2^8 and 2^16
+        if run % 5_000 == 4_999 {
+            knobs.max_ops = 600;
+            knobs.min_ops = 300;
+            knobs.max_clients = 1;
+            knobs.max_text = 8;
+        }
+        if run % 50_000 == 49_999 {
+            // enough *successful* updates on one object to pass 2^16 (update-heavy mix)
+            knobs.max_ops = 200_000;
+            knobs.min_ops = 170_000;
+            knobs.max_clients = 1;
+            knobs.max_text = 6;
+            knobs.update_heavy = true;
+        }
+    }
     gen_plan(&mut rng, &knobs)
 }
 
